@@ -21,6 +21,7 @@ Sub-oracles (all only where EOM.successTemperatureProfile is True)
                        inconsistency)
   asym-t33 / asym-t30 / asym-branch
                        first/last grid point versus the matching values (T-, -v-), (T+, -v+)
+  vmid-convention      velocityMid of findHydroBoundaries is the wall-frame mid-point -(v+ + v-)/2
 """
 from __future__ import annotations
 
@@ -306,6 +307,15 @@ def check_case(case) -> Verdict:
         e_m = abs(f30m + c1) + abs(f33m - c2)
         e_p = abs(f30p + c1) + abs(f33p - c2)
         eta_abs = min(max(e_m, e_p), ETA_CAP * wl)
+        # (3) frame of the out-of-equilibrium moments: velocityMid must be the wall-frame mid-point -(v+ + v-)/2
+        #     (docstring of findPlasmaProfile; sign convention named in the property's anchors).  The oracle's
+        #     stress uses this reference value, not the one handed over.
+        vmid_ref = -0.5 * (vp + vm)
+        v.checked("vmid-convention")
+        if abs(vmid - vmid_ref) > 1e-9:
+            v.fail("vmid-convention", f"branch={branch}",
+                   f"findHydroBoundaries({vw:.4f}) returned velocityMid={vmid!r}; wall-frame mid-point of the matching "
+                   f"velocities is -(v+ + v-)/2 = {vmid_ref!r}", vw=vw)
         # field values between which wallPressure interpolates
         TmE = max(min(Tm, thermo.freeEnergyLow.interpolationRangeMax()), thermo.freeEnergyLow.interpolationRangeMin())
         TpE = max(min(Tp, thermo.freeEnergyHigh.interpolationRangeMax()), thermo.freeEnergyHigh.interpolationRangeMin())
@@ -340,7 +350,7 @@ def check_case(case) -> Verdict:
                 continue
             phi = np.asarray(fields, dtype=float).reshape(n, nf)
             dphi = np.asarray(dfields, dtype=float).reshape(n, nf)
-            t30o, t33o = out_of_eq_stress(vals, dofs, vmid) if npart else (np.zeros(n), np.zeros(n))
+            t30o, t33o = out_of_eq_stress(vals, dofs, vmid_ref) if npart else (np.zeros(n), np.zeros(n))
             res = Residual(cf, phi, dphi, c1 - t30o, c2 - t33o)
             cls = f"branch={branch} deltas={dkind}"
             inside = int(np.sum(np.abs(z - 0.0) < np.max(widths)))
